@@ -276,8 +276,15 @@ static void do_ops(char* ops, int in_cb) {
       req = calloc(1, sizeof *req); req->data = (void*) (intptr_t) id;
       if (nreqs < MAXD) reqs[nreqs++] = req;
       nb = split(seq, b);
-      r = uv_udp_send(req, &H, b, nb, v[1] ? (struct sockaddr*) &Raddr : NULL, send_cb);
-      out("S%d,%d,%ld=%d ", id, seq, v[0], r);
+      {
+        /* the S token goes in front of the system calls the call makes */
+        size_t mark = olen; char tmp[96]; int tn; long len0 = v[0];
+        r = uv_udp_send(req, &H, b, nb, v[1] ? (struct sockaddr*) &Raddr : NULL, send_cb);
+        tn = snprintf(tmp, sizeof tmp, "S%d,%d,%ld=%d ", id, seq, len0, r);
+        out_room((size_t) tn);
+        if (!quiet) memmove(obuf + mark + tn, obuf + mark, olen - mark);
+        if (!quiet) { memcpy(obuf + mark, tmp, (size_t) tn); olen += (size_t) tn; }
+      }
       break;
     }
     case 't': {
